@@ -8,7 +8,7 @@ import numpy as np
 from .. import fileio as fio
 from . import c08
 
-THEOREMS = ["seek_spec", "step_refines", "C05_refines", "C05_read", "C05_seek", "C05_bound", "C05_bytes"]
+THEOREMS = ["seek_spec", "step_refines", "C05_refines", "C05_read", "C05_seek", "C05_bound", "C05_bytes", "readPoints_generated"]
 
 
 def rand_op(rng, count):
